@@ -95,12 +95,12 @@ func Judge4(req []byte, reqOK bool, replies [][]byte) []Finding {
 
 // Req6 describes a DHCPv6 request for the C12 oracle.
 type Req6 struct {
-	Data     []byte
-	CodecOK  bool // codec accepted the datagram and found an inner message
-	SrcLL    bool // source address is link-local
-	Src      string
-	WantIf   int    // interface the reply must be pinned to when SrcLL
-	Plain    []byte // the reply the same (stateless) chain gave to the un-relayed inner message, nil if not available
+	Data    []byte
+	CodecOK bool // codec accepted the datagram and found an inner message
+	SrcLL   bool // source address is link-local
+	Src     string
+	WantIf  int    // interface the reply must be pinned to when SrcLL
+	Plain   []byte // the reply the same (stateless) chain gave to the un-relayed inner message, nil if not available
 }
 
 type Rep6 struct {
